@@ -79,14 +79,17 @@ def claimed_promise(ctx, db, rid):
     """async::start_promise: the coroutine is started only when claim() handed out the future"""
     ctx.rule(rid, 'COUNT', 'async::start_promise: the coroutine handle leaves the async object (start_coro / exchange of _h) only on the edge where the future obtained from '
              'promise::claim() is non-null; on the null edge the coroutine stays unstarted and null is returned', floor=1)
+    from . import C04
+    C04._find_unrolled_takes(db)
     for f, trs in traces_of(db, 'cocls::async::start_promise', depth=1, inline=inline_only('cocls::async::start_coro'), per_instance=False):
-        trs = [t for t in trs if live(t)]
+        # (a path that goes against a constant handed to an expanded helper - release(true, p.claim()) not taking `if (attach)` - does not exist)
+        trs = [t for t in trs if live(t) and C04.feasible(t)]
         ctx.paths(rid, len(trs))
         bad = None; started = 0; refused = 0
         for tr in trs:
             ci = index_of(tr, callee_is(CLAIM))
-            ex = all_indices(tr, lambda ev: ev.k == 'call' and norm(ev.get('callee')) == 'std::exchange' and any(norm(a.get('field') or '') == 'cocls::async::_h' for a in ev.get('args', [])))
-            ex += all_indices(tr, lambda ev: ev.k in ('read',) and norm(ev.get('lfield') or '') == 'cocls::async::_h' and False)
+            # the handle leaves: std::exchange(_h, null), or the exchange written out (copy, then reset to null at once on every path)
+            ex = all_indices(tr, lambda ev: (ev.k == 'call' and norm(ev.get('callee')) == 'std::exchange' and any(norm(a.get('field') or '') == 'cocls::async::_h' for a in ev.get('args', []))) or C04.is_take(ev))
             win = None
             for it in tr[max(ci, 0):]:
                 if it.k == 'branch':
